@@ -32,7 +32,7 @@ type params struct {
 
 func (p params) name() string { return fmt.Sprintf("%s/F%d/P%d", p.API, p.F, p.P) }
 
-var apis = []string{"openup", "opendown", "writeflush", "read", "readmeta", "meta", "call", "callreply", "upclose", "downclose", "connclose"}
+var apis = []string{"openup", "opendown", "writeflush", "writelate", "read", "readmeta", "meta", "call", "callreply", "upclose", "downclose", "connclose"}
 
 func scenarios(tier string) []vlib.Scenario {
 	var out []vlib.Scenario
@@ -79,6 +79,10 @@ type callRec struct {
 }
 
 type world struct {
+	followupFaults      int
+	connectedAtFollowup bool
+	lateSecond          bool
+	secondReached       bool
 	unreachable         bool
 	awaitedLate         bool
 	connsBeforeFollowup int
@@ -102,7 +106,7 @@ func (w *world) eligible(m message.Message) bool {
 	case *message.DownstreamOpenRequest:
 		return w.p.API == "opendown"
 	case *message.UpstreamChunk:
-		return w.p.API == "writeflush" || w.p.API == "upclose"
+		return w.p.API == "writeflush" || w.p.API == "upclose" || (w.p.API == "writelate" && !w.lateSecond)
 	case *message.UpstreamCloseRequest:
 		return w.p.API == "upclose"
 	case *message.DownstreamCloseRequest:
@@ -139,6 +143,9 @@ func (w *world) script() *sim.Script {
 		}
 		kind := faultKinds[k-1]
 		w.faults = append(w.faults, kind+"@"+key)
+		if w.Phase == "followup" || w.lateSecond {
+			w.followupFaults++ // the later call itself (or the recovery it waits for) is being disturbed
+		}
 		switch kind {
 		case "drop":
 			return true
@@ -202,6 +209,23 @@ func (w *world) misaddress(b *sim.Broker, c *sim.BConn, m message.Message) {
 	}
 }
 
+// isConnected: is there an incarnation whose connect handshake the broker completed and that is still up?
+func (w *world) isConnected() bool {
+	if w.B == nil {
+		return false
+	}
+	l := w.B.Live()
+	if l == nil || l.Connect == nil || l.Silent {
+		return false
+	}
+	for _, f := range w.faults {
+		if strings.HasSuffix(f, "@ConnectRequest") && l.Idx == len(w.B.Conns)-1 {
+			return false
+		}
+	}
+	return true
+}
+
 func (w *world) timed(name string, bound time.Duration, followup bool, f func(ctx context.Context) error) *callRec {
 	r := &callRec{name: name, start: vsched.Now(), bound: bound, followup: followup}
 	w.calls = append(w.calls, r)
@@ -222,9 +246,12 @@ func (w *world) main() {
 	defer scancel()
 	w.Phase = "setup"
 	api := w.p.API
-	needUp := api == "writeflush" || api == "upclose"
+	needUp := api == "writeflush" || api == "upclose" || api == "writelate"
 	needDown := api == "read" || api == "readmeta" || api == "downclose"
-	if needUp {
+	if needUp && api == "writelate" {
+		// an ack timeout is configured: an acknowledgement may arrive after its waiter has given up
+		w.up, _ = w.OpenUp(sctx, "u0", iscp.WithUpstreamFlushPolicyNone(), iscp.WithUpstreamQoS(message.QoSReliable), iscp.WithUpstreamCloseTimeout(3*time.Second), iscp.WithUpstreamAckTimeout(time.Second))
+	} else if needUp {
 		w.up, _ = w.OpenUp(sctx, "u0", iscp.WithUpstreamFlushPolicyNone(), iscp.WithUpstreamQoS(message.QoSReliable), iscp.WithUpstreamCloseTimeout(3*time.Second))
 	}
 	if needDown {
@@ -286,6 +313,23 @@ func (w *world) main() {
 		w.timed("Flush", callTimeout, false, func(ctx context.Context) error { return w.up.U.Flush(ctx) })
 		vsched.Quiesce()
 		w.timed("Upstream.Close", callTimeout, false, func(ctx context.Context) error { return w.up.U.Close(ctx) })
+	case "writelate":
+		w.timed("Write", callTimeout, false, func(ctx context.Context) error { return w.up.Write(ctx, kit.IDA, "p") })
+		w.timed("Flush", callTimeout, false, func(ctx context.Context) error { return w.up.U.Flush(ctx) })
+		vsched.Sleep(callTimeout+4*time.Second, "h:late-ack") // a delayed acknowledgement has arrived by now, long after the ack timeout
+		w.lateSecond = true
+		w.timed("followup.Write2", callTimeout, true, func(ctx context.Context) error { return w.up.Write(ctx, kit.IDA, "q") })
+		w.timed("followup.Flush2", callTimeout, true, func(ctx context.Context) error { return w.up.U.Flush(ctx) })
+		vsched.Quiesce()
+		for _, u := range w.B.Ups {
+			for _, ch := range u.Chunks {
+				for _, pt := range ch.Points {
+					if pt.Payload == "q" {
+						w.secondReached = true
+					}
+				}
+			}
+		}
 	case "read":
 		w.timed("ReadDataPoints", callTimeout, false, func(ctx context.Context) error {
 			_, err := w.down.D.ReadDataPoints(ctx)
@@ -338,6 +382,8 @@ func (w *world) main() {
 		w.timed("followup.SendMetadata", 30*time.Second, true, func(ctx context.Context) error {
 			return w.Conn.SendMetadata(ctx, &message.BaseTime{SessionID: "s", Name: "follow"})
 		})
+		vsched.Quiesce()
+		w.connectedAtFollowup = w.isConnected()
 		w.Phase = "closing"
 		for _, u := range w.Ups {
 			w.timed("final.Upstream.Close", callTimeout, true, func(ctx context.Context) error { return u.U.Close(ctx) })
@@ -378,17 +424,8 @@ func run(sc vlib.Scenario, cfg vsched.Config) (*vsched.Result, vlib.Verdict) {
 		lastFault = w.faults[len(w.faults)-1]
 	}
 	// is there an incarnation whose connect handshake the broker completed and that is still up?
-	connected := false
-	if w.B != nil {
-		if l := w.B.Live(); l != nil && l.Connect != nil && !l.Silent {
-			connected = true
-			for _, f := range w.faults {
-				if strings.HasSuffix(f, "@ConnectRequest") && l.Idx == len(w.B.Conns)-1 {
-					connected = false
-				}
-			}
-		}
-	}
+	// (evaluated when the follow-up calls had returned, before the harness closed everything)
+	connected := w.connectedAtFollowup
 	if res.Outcome == vsched.Panicked {
 		lf := "none"
 		if len(w.faults) > 0 {
@@ -420,8 +457,21 @@ func run(sc vlib.Scenario, cfg vsched.Config) (*vsched.Result, vlib.Verdict) {
 		if c.end-c.start > c.bound+slack {
 			v.Fail("C08.late", fmt.Sprintf("%s/%s", c.name, lastFault), "%s returned after %v, its context allowed %v (faults: %s)", c.name, c.end-c.start, c.bound, fault)
 		}
-		if c.followup && c.err != nil && strings.HasPrefix(c.name, "followup.") && connected {
+		// (the second write of "writelate" is a call on the stream itself: a second fault that hit the stream's
+		// resume exchange legitimately ends that stream)
+		if c.followup && c.err != nil && strings.HasPrefix(c.name, "followup.") && connected && w.followupFaults == 0 && (!strings.HasSuffix(c.name, "2") || len(w.faults) <= 1) {
 			v.Fail("C08.dispatch", fmt.Sprintf("%s/%s/%s", c.name, kit.ErrKind(c.err), lastFault), "%s failed with %v after fault %s: the connection no longer serves later calls", c.name, c.err, fault)
+		}
+	}
+	if w.p.API == "writelate" && connected && w.followupFaults == 0 && len(w.faults) <= 1 && res.Outcome == vsched.Completed && !w.secondReached && len(w.Ups) > 0 && !kit.ReportedClosed(w.Ups[0].Closed) {
+		ok := true
+		for _, c := range w.calls {
+			if strings.HasPrefix(c.name, "followup.") && strings.HasSuffix(c.name, "2") && c.err != nil {
+				ok = false // already reported as a failing later call
+			}
+		}
+		if ok {
+			v.Fail("C08.dispatch", "second-chunk-never-sent/"+lastFault, "after fault %s the second Write and Flush returned nil but the chunk never reached the broker", fault)
 		}
 	}
 	// a broker that merely answers late (no message lost, every ping answered) must not cost the connection
